@@ -163,159 +163,75 @@ theorem subStations_mem (w : SWorld α B) (cvs : List (VehicleS α B)) (stations
         · simp only [List.mem_cons, List.not_mem_nil, or_false] at h'
           subst h'; exact (station?_some' _ _ _ hst).1
 
-/-! ### one connector's treatment keeps every station within its maximum -/
+/-! ### static station data through the sub-strategy's step; the repair DIST2 on a booked world -/
 
-theorem stepDeps_st (dops : DOps α B) (law : BatLaw dops.bat) (de : DEnv α)
-    (w : SWorld α B) (ini : DInit α) (acc : List (String × α)) (gc : GcS α) (stations : List (StationS α))
-    (cvs : List (VehicleS α B)) (batIds : List String)
-    (w' : SWorld α B) (ini' : DInit α) (acc' : List (String × α))
-    (hsub : ∀ s ∈ stations, s ∈ w.stations) (h0 : StOK w.stations)
-    (h : stepDepsRule dops de w ini acc gc stations cvs batIds = .ok (w', ini', acc')) :
-    StOK w'.stations ∧ ini' = ini := by
-  unfold stepDepsRule at h
-  simp only [bind, Except.bind] at h
-  split at h
-  · cases h
-  · rename_i r hr
-    obtain ⟨vw', cmds⟩ := r
-    simp only [Except.ok.injEq, Prod.mk.injEq] at h
-    obtain ⟨rfl, rfl, rfl⟩ := h
-    have hv := ruleStep_stOK _ dops.bat law _ _ vw' cmds
-      (show MaxOK stations from fun s hs => (h0 s (hsub s hs)).1) hr
-    refine ⟨?_, rfl⟩
-    intro s hs
-    unfold mergeDeps at hs
-    simp only [foldl_setBattery_stations, foldl_setGc_stations] at hs
-    rcases writeBack_stations_mem _ _ _ _ s hs with h | h
-    · exact h0 s h
-    · exact hv s h
+/-- a predicate on stations that does not read `current_power` -/
+def Static (Q : StationS α → Prop) : Prop := ∀ s c, Q s → Q { s with currentPower := c }
 
-theorem oppsBattery_vcs (dops : DOps α B) (de : DEnv α) (ini : DInit α) (lk : Look α) (w : SWorld α B)
-    (occ : Bool) (gcId : String) (st st' : OppsPrep α B) (bId : String)
-    (hinv : ∀ s ∈ st.vcs, s ∈ ini.virtualCs)
-    (h : oppsBattery dops de ini lk w occ gcId st bId = .ok st') : ∀ s ∈ st'.vcs, s ∈ ini.virtualCs := by
-  unfold oppsBattery at h
-  split at h
-  · cases h
-  · split at h
-    · simp only [bind, Except.bind] at h
-      split at h
-      · cases h
-      · split at h
-        · simp only [Except.ok.injEq] at h; subst h; exact hinv
-        · split at h
-          · cases h
-          · split at h
-            · cases h
-            · split at h
-              · simp only [Except.ok.injEq] at h; subst h; exact hinv
-              · simp only [Except.ok.injEq] at h; subst h; exact hinv
-    · dsimp only at h
-      split at h
-      · cases h
-      · split at h
-        · cases h
-        · rename_i vcs hfind
-          simp only [bind, Except.bind] at h
-          split at h
-          · cases h
-          · simp only [Except.ok.injEq] at h; subst h
-            intro s hs
-            rcases List.mem_append.mp hs with h' | h'
-            · exact hinv s (List.mem_filter.mp h').1
-            · simp only [List.mem_cons, List.not_mem_nil, or_false] at h'
-              subst h'; exact List.mem_of_find?_eq_some hfind
-
-theorem stepOpps_st (dops : DOps α B) (law : BatLaw dops.bat) (de : DEnv α) (lk : Look α)
-    (w : SWorld α B) (ini : DInit α) (acc : List (String × α)) (gcId : String) (gc : GcS α)
-    (stations : List (StationS α)) (cvs : List (VehicleS α B)) (batIds : List String)
-    (w' : SWorld α B) (ini' : DInit α) (acc' : List (String × α))
-    (hsub : ∀ s ∈ stations, s ∈ w.stations) (h0 : StOK w.stations) (hv0 : MaxOK ini.virtualCs)
-    (h : stepOppsRule dops de lk w ini acc gcId gc stations cvs batIds = .ok (w', ini', acc')) :
-    StOK w'.stations ∧ MaxOK ini'.virtualCs := by
-  unfold stepOppsRule at h
-  simp only [bind, Except.bind] at h
-  split at h
-  · cases h
-  · rename_i prep hprep
-    have hvcs : ∀ s ∈ prep.vcs, s ∈ ini.virtualCs :=
-      foldlM_inv _ (fun (st : OppsPrep α B) => ∀ s ∈ st.vcs, s ∈ ini.virtualCs)
-        (fun st x st' hi hs => oppsBattery_vcs dops de ini lk w _ gcId st st' x hi hs) batIds _ prep
-        (by intro s hs; simp at hs) hprep
-    split at h
-    · cases h
-    · rename_i r hr
-      obtain ⟨vw', cmds⟩ := r
-      have hv := ruleStep_stOK _ dops.bat law _ _ vw' cmds
-        (show MaxOK (stations ++ prep.vcs) from fun s hs => by
-          rcases List.mem_append.mp hs with h' | h'
-          · exact (h0 s (hsub s h')).1
-          · exact hv0 s (hvcs s h')) hr
-      split at h
-      · rename_i gc1 _
-        simp only at h
-        split at h
-        · cases h
-        · rename_i post _
-          simp only [Except.ok.injEq, Prod.mk.injEq] at h
-          obtain ⟨rfl, rfl, rfl⟩ := h
-          constructor
-          · intro s hs
-            have hs' : s ∈ (writeBack w vw' (stations.map (·.id)) (cvs.map (·.id))).stations := hs
-            rcases writeBack_stations_mem _ _ _ _ s hs' with h | h
-            · exact h0 s h
-            · exact hv s h
-          · intro s hs
-            simp only [List.mem_map] at hs
-            obtain ⟨x, hx, rfl⟩ := hs
-            split
-            · cases hf : vw'.stations.find? (·.id == x.id) with
-              | none => simpa using hv0 x hx
-              | some y => simpa using (hv y (List.mem_of_find?_eq_some hf)).1
-            · exact hv0 x hx
-      · cases h
-
-/-- invariant of the charging loop on the station side -/
-structure StInv (st : SWorld α B × DInit α × List (String × α)) : Prop where
-  ok : StOK st.1.stations
-  virt : MaxOK st.2.1.virtualCs
-
-theorem stepGc_st (dops : DOps α B) (law : BatLaw dops.bat) (de : DEnv α)
-    (hd : de.deps.ps = none) (ho : de.opps.ps = none)
-    (ncs : List (String × Option Int)) (conn : List (String × List String)) (lk : Look α)
-    (st st' : SWorld α B × DInit α × List (String × α)) (gcId : String) (hinv : StInv st)
-    (h : stepGc dops de ncs conn lk st gcId = .ok st') : StInv st' := by
-  unfold stepGc at h
-  split at h
-  · cases h
-  · rename_i gc hgc
-    simp only [bind, Except.bind] at h
-    split at h
-    · cases h
-    · split at h
-      · cases h
-      · rename_i cands _ cvs _
-        split at h
-        · simp only [Except.ok.injEq] at h; subst h; exact hinv
-        · split at h
-          · cases h
-          · rename_i kind _
-            split at h
-            · cases h
-            · rename_i stations hst
-              have hsub := subStations_mem st.1 cvs stations hst
-              obtain ⟨w', ini', acc'⟩ := st'
-              cases kind with
-              | deps =>
-                unfold stepDeps at h; simp only [hd] at h
-                obtain ⟨a, e⟩ := stepDeps_st dops law de st.1 st.2.1 st.2.2 gc stations cvs _ w' ini' acc'
-                  hsub hinv.ok h
-                exact ⟨a, by rw [e]; exact hinv.virt⟩
-              | opps =>
-                unfold stepOpps at h; simp only [ho] at h
-                obtain ⟨a, b⟩ := stepOpps_st dops law de lk st.1 st.2.1 st.2.2 gcId gc stations cvs _ w' ini' acc'
-                  hsub hinv.ok hinv.virt h
-                exact ⟨a, b⟩
+theorem ruleStep_static (Q : StationS α → Prop) (hQ : Static Q) (rule : Rule) (ops : BatOps α B) (env : StratEnv α)
+    (w w' : SWorld α B) (cmds : List (String × α)) (hinv : ∀ s ∈ w.stations, Q s)
+    (h : ruleStep rule ops env w = .ok (w', cmds)) : ∀ s ∈ w'.stations, Q s := by
+  have book : ∀ (w : SWorld α B) (v' : VehicleS α B) (g' : GcS α) (cs : StationS α) (c : α),
+      cs ∈ w.stations → (∀ s ∈ w.stations, Q s) →
+      ∀ s ∈ (((w.setVehicle v').setGc g').setStation { cs with currentPower := c }).stations, Q s := by
+    intro w v' g' cs c hcs h s hs
+    rcases mem_setStation _ _ s hs with rfl | hm
+    · exact hQ cs c (h cs hcs)
+    · exact h s (by simpa using hm)
+  unfold ruleStep at h
+  cases ha : availBatPower ops w with
+  | error e => simp [ha, bind, Except.bind] at h
+  | ok avail =>
+    simp only [ha, bind, Except.bind] at h
+    cases hf : (sortedVehicleIds (resetStations w)).foldlM (allocVehicle rule ops env)
+        (resetStations w, [], avail) with
+    | error e => simp [hf] at h
+    | ok st1 =>
+      obtain ⟨w1, c1, a1⟩ := st1
+      simp only [hf] at h
+      have h0 : ∀ s ∈ (resetStations w).stations, Q s := by
+        intro s hs
+        unfold resetStations at hs
+        simp only [List.mem_map] at hs
+        obtain ⟨x, hx, rfl⟩ := hs
+        exact hQ x 0 (hinv x hx)
+      have h1 : ∀ s ∈ w1.stations, Q s :=
+        foldlM_inv (allocVehicle rule ops env) (fun s => ∀ x ∈ s.1.stations, Q x)
+          (fun st vid st' hi hs => by
+            obtain ⟨v, hv, hc⟩ := allocVehicle_cases rule ops env st st' vid hs
+            rcases hc with ⟨_, he⟩ | ⟨csId, cs, gc, cheap, power, used, bat', avg, hcs, hst, hgc, _, _, _, he⟩
+            · rw [he]; exact hi
+            · rw [he]; exact book _ _ _ cs _ (station?_some' _ _ _ hst).1 hi) _ _ (w1, c1, a1) h0 hf
+      cases hd : distributeSurplus ops env w1 with
+      | error e => simp [hd] at h
+      | ok r2 =>
+        obtain ⟨w2, c2⟩ := r2
+        simp only [hd] at h
+        have h2 : ∀ s ∈ w2.stations, Q s := by
+          rw [distributeSurplus_unfold] at hd
+          cases hc : w1.gcs.mapM (cheapEntry env) with
+          | error e => simp [hc, bind, Except.bind] at hd
+          | ok cheap =>
+            simp only [hc, bind, Except.bind] at hd
+            exact foldlM_inv (surplusBody ops env cheap) (fun s => ∀ x ∈ s.1.stations, Q x)
+              (fun st v0 st' hi hs => by
+                rcases surplusBody_cases ops env cheap st st' v0 hs with ⟨_, he⟩ | ⟨v, hv, hc⟩
+                · rw [he]; exact hi
+                · rcases hc with ⟨_, he⟩ | ⟨csId, cs, gc, r, hcs, hst, hgc, hloc, he⟩
+                  · rw [he]; exact hi
+                  · rw [he]
+                    cases r with
+                    | none => exact hi
+                    | some t =>
+                      obtain ⟨bat', d, cur'⟩ := t
+                      exact book _ _ _ cs _ (station?_some' _ _ _ hst).1 hi)
+              w1.vehicles (w1, []) (w2, c2) h1 hd
+        cases hu : updateBatteries ops env w2 with
+        | error e => simp [hu] at h
+        | ok w3 =>
+          simp only [hu, Except.ok.injEq, Prod.mk.injEq] at h
+          obtain ⟨rfl, _⟩ := h
+          rw [updateBatteries_stations ops env w2 w3 hu]; exact h2
 
 theorem distributeSurplusOn_station (ops : BatOps α B) (law : BatLaw ops) (env : StratEnv α)
     (w w' : SWorld α B) (ids : List String) (cmds' : List (String × α)) (hinv : StationInv w)
